@@ -167,6 +167,17 @@ pub fn eval(q: &Query) -> (Prog, String, Option<String>, bool, u64) {
                     ground_args.iter().map(|t| t.text()).collect::<Vec<_>>().join(", ")));
                 break;
             }
+            // `member1` commits to the FIRST matching position (`!=` guards on the earlier ones): its answers are pairwise
+            // disjoint, a ground instance belongs to exactly one of them (seeded change C24-m: a de-duplicating fast path
+            // that let a variable element and a later constant both match)
+            if q.finite && q.rel == "member1" && want {
+                let k = answers.iter().filter(|a| instance_of(a, &tuple)).count();
+                if k > 1 {
+                    fail = Some(format!("member1({}) is an instance of {} answers: member1 yields one answer per distinct matching value",
+                        ground_args.iter().map(|t| t.text()).collect::<Vec<_>>().join(", "), k));
+                    break;
+                }
+            }
             if q.finite && want && !got {
                 fail = Some(format!("{}({}) holds but is an instance of no answer", q.rel, ground_args.iter().map(|t| t.text()).collect::<Vec<_>>().join(", ")));
                 break;
